@@ -89,7 +89,7 @@ void resolve_on_other_grid(Ctx &c, Scenario &sc, Runner &run, long double tol, l
 void describe(Ctx &c, Scenario &sc) {
     c.note("%s, %zu unknown parameters", sc.describe().c_str(), sc.uparams.size());
     for (auto &st : sc.stds) c.note("  %s", st.describe().c_str());
-    for (size_t k = 0; k < sc.uparams.size(); k++) { auto &u = sc.uparams[k]; c.note("  param %zu: %s truth %.4Lg%+.4Lgi guess %.4Lg%+.4Lgi%s", k, u.correlated ? "correlated" : "unknown", u.truth[0].real(), u.truth[0].imag(), u.correlated ? u.other_value.real() : u.guess[0].real(), u.correlated ? u.other_value.imag() : u.guess[0].imag(), u.guess_vector ? " (vector guess)" : ""); }
+    for (size_t k = 0; k < sc.uparams.size(); k++) { auto &u = sc.uparams[k]; c.note("  param %zu: %s truth %.4Lg%+.4Lgi guess %.4Lg%+.4Lgi%s", k, u.correlated ? (u.other >= 0 ? "correlated with an unknown (guess column: its index)" : "correlated") : "unknown", u.truth[0].real(), u.truth[0].imag(), u.correlated ? (u.other >= 0 ? (long double)u.other : u.other_value.real()) : u.guess[0].real(), u.correlated ? u.other_value.imag() : u.guess[0].imag(), u.guess_vector ? " (vector guess)" : ""); }
 }
 
 // ---- (a) TRL -------------------------------------------------------------------------------
@@ -201,6 +201,29 @@ void lm(Ctx &c) {
         cell->uparam = (int)sc.uparams.size();
         sc.uparams.push_back(u);
     }
+    // connection-repeatability ("hub") model, a quarter of the cases: one of the unknowns becomes the true value of a
+    // physical standard that is connected 2..6 times (the original cell plus 1..5 further single reflects on random
+    // ports); every connection is a parameter of its own, correlated with the hub, and the hub itself appears in no
+    // standard.  The truths of all connections equal the hub's (exact data: the correlation residuals vanish at the
+    // truth), so the solution is the truth iff the COLLAPSED system -- all connections sharing one unknown -- is
+    // identifiable; identifiability, kappa and the excess filter below are therefore evaluated on the collapsed form
+    // and the scenario is expanded afterwards.  Such systems are usually over-determined only once the correlation
+    // equations are counted (each connection adds a parameter for every measurement equation it brings).
+    int hub = -1;
+    if (c.chance(1, 4)) for (size_t i = 0; i < sc.uparams.size(); i++) if (!sc.uparams[i].correlated) { hub = (int)i; break; }
+    if (hub >= 0) {
+        UParam &h = sc.uparams[hub];
+        C v = h.truth[0], d = h.guess[0] - h.truth[0];
+        for (auto &t : h.truth) t = v;
+        for (auto &gq : h.guess) gq = v + d;
+        for (auto &st : sc.stds) for (auto &cell : st.cells) if (cell.uparam == hub) { cell.v = h.truth; cell.kf.clear(); cell.kv.clear(); }
+        int extra = (int)c.range(1, 5);
+        for (int i = 0; i < extra; i++) {
+            Standard st = g.single((int)c.draw(sc.P), v);
+            SCell &cell = st.cells[0]; cell.kind = SCell::SCALAR; cell.v = h.truth; cell.kf.clear(); cell.kv.clear(); cell.handle = -1; cell.uparam = hub;
+            sc.stds.insert(sc.stds.begin() + c.draw(sc.stds.size() + 1), st);
+        }
+    }
     for (auto &st : sc.stds) { bool hasu = false; for (auto &cell : st.cells) if (cell.uparam >= 0) hasu = true; if (hasu && (int)st.ports.size() < sc.P) single_with_unknown = true; g.finish(st); }
     // "later-frequency stress": the guess is exact at the first frequency and far outside the basin at the last one,
     // with a tiny iteration limit -- the first frequency converges at once, a later one most likely does not, and
@@ -218,7 +241,20 @@ void lm(Ctx &c) {
         if (!id.determining || id.kappa > 1e4L) { c.label("filtered:not-determining"); return; }
         kappa = std::max(kappa, id.kappa); excess = std::min(excess, id.ncells - id.rank_expected);
     }
-    if (excess < (int)sc.uparams.size() + 2) { c.label("filtered:too-little-excess"); return; }
+    if (excess < (int)sc.uparams.size() + (hub >= 0 ? 1 : 2)) { c.label("filtered:too-little-excess"); return; }
+    // expand the hub model: one correlated parameter per connection, the hub left without a standard of its own
+    bool closes_only_with_correlation = false; int hub_collapsed = 0;
+    if (hub >= 0) {
+        hub_collapsed = (int)sc.uparams.size();
+        int meas_for_params = excess + (int)sc.uparams.size();      // measurement equations beyond the error terms (collapsed count == expanded count)
+        double sigma = std::pow(10.0, -1 - 2 * (double)c.unit());
+        for (auto &st : sc.stds) for (auto &cell : st.cells) if (cell.uparam == hub) {
+            UParam u; u.correlated = true; u.other = hub; u.truth = sc.uparams[hub].truth; u.sigma = sigma;
+            cell.uparam = (int)sc.uparams.size(); sc.uparams.push_back(u);
+        }
+        correlated = true;
+        closes_only_with_correlation = meas_for_params < (int)sc.uparams.size();
+    }
     long double ptol = std::pow(10.0L, -(long double)c.range(4, 12)), ettol = std::pow(10.0L, -(long double)c.range(4, 12));
     int itlimit = (late_stress || c.chance(1, 6)) ? (int)c.range(1, 3) : (int)c.range(30, 100);
     describe(c, sc);
@@ -226,6 +262,7 @@ void lm(Ctx &c) {
     c.label("path:LM"); c.label(std::string("type:") + vm::tname(sc.type));
     if (single_with_unknown) c.label("unknown-with-unspecified-S-cells");
     if (correlated) c.label("correlated");
+    if (hub >= 0) { c.label("hub-model"); if (closes_only_with_correlation) c.label("hub-model:over-determined-only-with-correlation-equations"); }
     if (m_error) c.label("m_error");
     if (late_stress) c.label("LM:later-frequency-stress");
 
@@ -239,6 +276,12 @@ void lm(Ctx &c) {
     int rc = vnacal_new_solve(run.vnp); int err = errno;
     if (rc != 0) {
         PBT_CHECK(c, err == EDOM && run.log.n_nonwarning() >= 1 && run.log.last()->category == VNAERR_MATH, "C02.failure_report", "solve failed with errno %d (%s) / callbacks: %s", err, strerror(err), run.log.text().c_str());
+        // every system that gets here is identifiable and over-determined (counting, for hub models, the correlation
+        // equations the library documents as part of the system): it may fail to converge, it may not be refused
+        // as under-determined -- that would take the whole family out of the property's domain
+        PBT_CHECK(c, run.log.text().find("not enough standards") == std::string::npos, "C02.refused_as_underdetermined",
+                  "an identifiable, over-determined system (%d measurement equations beyond the error terms%s, %zu unknown parameters) was refused: %s",
+                  excess + (int)sc.uparams.size() - (hub >= 0 ? (int)sc.uparams.size() - hub_collapsed : 0), hub >= 0 ? " plus one correlation equation per connection" : "", sc.uparams.size(), run.log.text().c_str());
         c.label(itlimit <= 3 ? "solve:failed(limit<=3)" : "solve:failed"); if (late_stress) { c.label("LM:later-frequency-stress:failed"); c.nontrivial(); } return;
     }
     c.label("solve:ok");
